@@ -869,13 +869,13 @@ class RangePlugin(Plugin):
     (?P<start>
         ('[^']*?'\s+)             # single-quoted
         |                         # or
-        ([^\]}]+?(?=[Tt][Oo]))    # everything until "to"
+        ([^\]}]+?\s+(?=[Tt][Oo](\s|\]|\})))  # everything until the word "to"
     )?
     [Tt][Oo]                      # "to"
     (?P<end>
         (\s+'[^']*?')             # single-quoted
         |                         # or
-        ([^\]}]+?)                # everything until "]" or "}"
+        (\s[^\]}]*?)              # everything until "]" or "}"
     )?
     (?P<close>}|])                # Close paren
     """, verbose=True)
